@@ -510,12 +510,118 @@ def _conversion_path_rule(ctx, m2):
             ctx.ok(R, {"direction": label, "slice": hirq.render(rng)[:60], "pairs_checked": checked})
 
 
+def enumerate_index_rule(ctx, crate, pid, floor):
+    """`for (i, x) in xs.iter().enumerate()`: when `i` is used as a position (multiplied by a stride, added to an offset, used as
+    an index) it must count *all* elements: an adapter that drops or reorders elements before `enumerate()` (filter, skip_while,
+    rev, ...) makes i the ordinal among the survivors, not the element's slot"""
+    R = ctx.rule("%s.enumerate-index-counts-every-element" % pid, "no loop uses the index of `enumerate()` as a position when a filtering / reordering adapter precedes the `enumerate()`", floor=floor)
+    DROP = ("filter", "filter_map", "skip", "skip_while", "step_by", "take_while", "rev", "flat_map", "flatten", "chain", "zip_longest", "dedup")
+
+    def chain(body, e, depth=3):
+        names = []
+        cur = hirq.strip(e)
+        while cur is not None:
+            if cur.get("k") == "mcall":
+                names.append(cur["m"])
+                cur = hirq.strip(cur["recv"])
+            elif cur.get("k") == "path" and "local" in cur["res"] and depth > 0:
+                vals = hirq.local_values(body, cur["res"]["local"])
+                if len(vals) == 1 and vals[0] is not None:
+                    cur = hirq.strip(vals[0])
+                    depth -= 1
+                else:
+                    break
+            elif cur.get("k") == "call" and (cur.get("fn") or "").endswith("into_iter") and cur.get("args"):
+                cur = hirq.strip(cur["args"][0])
+            else:
+                break
+        return names
+    for f in crate.fn_list:
+        if not f.hir or f.kind == "Closure" or "::tests::" in f.path or "::test" in f.path:
+            continue
+        body = f.hir["body"]
+        for lp in hirq.find(body, "for"):
+            ch = chain(body, lp["iter"])
+            if "enumerate" not in ch:
+                continue
+            inner = ch[ch.index("enumerate") + 1:]
+            dropped = [a for a in inner if a in DROP]
+            binds = hirq.pat_binds(lp["pat"])
+            idx = binds[0] if binds else None
+            inst = {"fn": f.path.split("::")[-1], "line": lp.get("ln"), "chain": list(reversed(ch))[:6]}
+            if not dropped or idx is None:
+                ctx.ok(R, inst) if len(ctx.samples) < 300 else (ctx.rules[R].__setitem__("obligations", ctx.rules[R]["obligations"] + 1), ctx.rules[R].__setitem__("discharged", ctx.rules[R]["discharged"] + 1))
+                continue
+            positional = [x for x in hirq.walk(lp["body"]) if (x.get("k") == "bin" and x["op"] in ("*", "+", "-", "<<") and any(y.get("k") == "path" and y["res"].get("local") == idx for y in hirq.walk(x))) or
+                          (x.get("k") == "index" and any(y.get("k") == "path" and y["res"].get("local") == idx for y in hirq.walk(x.get("i") or x.get("idx") or {})))]
+            if positional:
+                ctx.bad(R, "%s|%s" % (f.path.split("::")[-1], idx), "%s:%d" % (f.file, lp.get("ln") or 0), "`%s` enumerates after `%s` and is used as a position: `%s`" % (idx, ", ".join(dropped), hirq.render(positional[0])[:70]),
+                        "for collections where the adapter drops an element before the end, later elements are written to / read from the slot of an earlier one")
+            else:
+                ctx.ok(R, dict(inst, note="index of a filtered enumeration not used as a position"))
+
+
+def _bone_index_validity_rule(ctx, m2):
+    """M2Vertex::validate_bone_data rewrites a bone index it considers invalid to 0: the test must be exactly `index >= bone_count`
+    for every index a byte can hold and every skeleton size (decided by evaluating each comparison that involves bone_count over
+    idx in 0..=255 and bone counts around 255/256, with `as u8` truncation modelled)"""
+    R = ctx.rule("C13.bone-index-validity-is-the-range-test", "every comparison of a vertex bone index with (a value derived from) bone_count in validate_bone_data is true exactly when index >= bone_count, for index 0..=255 and bone_count in {1,2,3,127,128,254,255,256,257,300,1000,65535,65536}", floor=2)
+    from .c10 import _bval, _NoEval
+    f = next((x for x in m2.fn_list if x.hir and x.kind != "Closure" and norm(x.path).endswith("chunks::vertex::M2Vertex::validate_bone_data")), None)
+    if f is None:
+        ctx.bad(R, "validate_bone_data|missing", "-", "function not found", "anchor gone")
+        return
+    ctx.saw_fn(f)
+    body = f.hir["body"]
+    lets = {l["pat"]["name"]: l["init"] for l in hirq.find(body, "let") if l["pat"].get("k") == "bind" and l.get("init") is not None}
+
+    def mentions_count(e, depth=3):
+        for y in hirq.walk(e):
+            if y.get("k") == "path" and y["res"].get("local") == "bone_count":
+                return True
+            if y.get("k") == "path" and y["res"].get("local") in lets and depth > 0 and mentions_count(lets[y["res"]["local"]], depth - 1):
+                return True
+        return False
+    n_cmp = 0
+    for x in hirq.walk(body):
+        if x.get("k") != "bin" or x["op"] not in ("<", "<=", ">", ">=") or not mentions_count(x):
+            continue
+        free = sorted({y["res"]["local"] for y in hirq.walk(x) if y.get("k") == "path" and "local" in y["res"] and y["res"]["local"] != "bone_count" and y["res"]["local"] not in lets})
+        if len(free) != 1:
+            continue
+        el = free[0]
+        n_cmp += 1
+        try:
+            bad = None
+            env0 = {"__ty__": (lambda t_: m2.ty(t_))}
+            invalid_form = not _bval(x, dict(env0, **{el: 0, "bone_count": 1}), lets)
+            for n in (1, 2, 3, 127, 128, 254, 255, 256, 257, 300, 1000, 65535, 65536):
+                for i in range(256):
+                    got = _bval(x, dict(env0, **{el: i, "bone_count": n}), lets)
+                    want = (i >= n) if invalid_form else (i < n)
+                    if got != want and bad is None:
+                        bad = (i, n, got)
+            if bad:
+                ctx.bad(R, "validate_bone_data|%s" % hirq.render(x)[:40], "%s:%d" % (f.file, x.get("ln") or 0), "`%s` is %s for index %d with %d bones" % (hirq.render(x)[:60], bad[2], bad[0], bad[1]),
+                        "a valid bone reference is rewritten to bone 0 (or an invalid one kept) when the model is parsed: vertices attached to that bone come back attached to the root")
+            else:
+                ctx.ok(R, {"comparison": hirq.render(x)[:60], "form": "invalid-if" if invalid_form else "valid-if", "evaluations": 13 * 256})
+        except _NoEval as e:
+            ctx.bad(R, "validate_bone_data|not-evaluable", "%s:%d" % (f.file, x.get("ln") or 0), "`%s` not evaluable: %s" % (hirq.render(x)[:60], e), "shape changed")
+    if n_cmp == 0:
+        ctx.bad(R, "validate_bone_data|no-comparison", f.where, "no comparison between a bone index and bone_count found", "invalid indices are no longer detected, or the shape changed")
+
+
 def run(ctx):
     prog = ctx.prog
     m2 = prog.crate(CR)
     R_pair = ctx.rule("C13.parse-write-wire-agreement", "for every linear parse/write pair the writer's wire signature equals the reader's at every version of the domain", floor=55)
     R_size = ctx.rule("C13.record-size-constants", "each record-size constant in M2Model::write equals the computed width of that record's writer at every version", floor=3)
 
+    enumerate_index_rule(ctx, m2, "C13", floor=20)
+    _bone_index_validity_rule(ctx, m2)
+    from .c15 import prealloc_cap_rule
+    prealloc_cap_rule(ctx, [m2], "C13", floor=10)
     _relocation_rule(ctx, m2)
     _conversion_path_rule(ctx, m2)
     _track_skip_rule(ctx, m2)
